@@ -21,6 +21,7 @@ FULL-STRENGTH STATEMENTS (hold iff `codeCfg.recheck = true`, see `code_safe`):
   held_readers_stay_mapped); a later reader sees every installed commit (later_reader_sees_commit).
 -/
 import LinVerif.Lemmas.C02Read
+import LinVerif.Lemmas.C02TokStep
 import LinVerif.Generated.C02
 
 namespace LinVerif.Props.C02
@@ -283,6 +284,74 @@ theorem two_committers_both_visible {cfg : Cfg} {v0 f0 : Nat} {s s' : St} (hr : 
     have := hnodel e' (by rw [hh]; simp [he'])
     simp [this]
   exact ⟨key _ (commit_recorded hr hcl h j hj hpj), key _ (commit_recorded hr hcl h k hk hpk)⟩
+
+/-! ### content level across compactions — for ANY merger satisfying the contract `MergerOk`
+
+`cfg.merge` is the family's merger (what a compaction writes for the contents of its inputs).
+`snapshot_stable` above already holds for every merger whatsoever (it never looks at `cfg.merge`).
+What needs the contract "for every key the merged table holds exactly the tokens of its inputs"
+is that a compaction does not change what the CURRENT version shows. -/
+
+/-- Over all schedules: for every key the current version shows exactly (as a multiset) the value
+tokens of the flush commits whose version swap is done (`s.flushed`), however many compactions
+(merge or trivial move), rollup commits and overlapping committers ran. -/
+theorem current_shows_flushed_tokens {cfg : Cfg} {v0 f0 : Nat} {s : St} (hm : MergerOk cfg.merge)
+    (hr : cfg.recheck = true) (hcl : cfg.cloneLocked = true) (h : Reachable cfg v0 f0 s) (k : Nat) :
+    (vTokens (s.ver s.cur).files s.content k).Perm (s.flushed.flatMap (fun f => tokensAt (s.content f) k)) :=
+  (tok_reachable hm hr hcl h).tokens k
+
+/-- a flush commit's swap records its table as flushed -/
+theorem swap_records_flush (s : St) (j : Nat) (hk : (s.job j).kind = .flush) :
+    (jSwap s j).flushed = outNo (s.job j) ++ s.flushed := by
+  simp [jSwap, noteFlush, hk, swapVersion, setPc, St.setJob]
+
+/-- A reader that starts later sees, for every key, exactly the tokens of all flush commits that
+completed (swapped) before it started — compactions in between notwithstanding. -/
+theorem later_reader_sees_tokens {cfg : Cfg} {v0 f0 : Nat} {s s' : St} (hm : MergerOk cfg.merge)
+    (hr : cfg.recheck = true) (hcl : cfg.cloneLocked = true) (h : Reachable cfg v0 f0 s)
+    (hst : step cfg s .acquire = some s') (k : Nat) :
+    (vTokens (s'.ver (s'.snap s.nSnap).ver).files s'.content k).Perm
+      (s.flushed.flatMap (fun f => tokensAt (s.content f) k)) := by
+  simp only [step] at hst
+  cases hst
+  have : vTokens ((snapAcquire s none).ver ((snapAcquire s none).snap s.nSnap).ver).files (snapAcquire s none).content k =
+      vTokens (s.ver s.cur).files s.content k := by simp [snapAcquire]
+  rw [this]
+  exact current_shows_flushed_tokens hm hr hcl h k
+
+/-- the version swap of a compaction (merge or trivial move) leaves every key's tokens unchanged -/
+theorem compaction_swap_keeps_tokens {cfg : Cfg} {v0 f0 : Nat} {s : St} (hm : MergerOk cfg.merge)
+    (hr : cfg.recheck = true) (hcl : cfg.cloneLocked = true) (h : Reachable cfg v0 f0 s)
+    (j : Nat) (hj : j < s.nJob) (hpc : (s.job j).pc = .cSnapped) (hk : (s.job j).kind = .compact) (k : Nat) :
+    (vTokens ((jSwap s j).ver (jSwap s j).cur).files (jSwap s j).content k).Perm
+      (vTokens (s.ver s.cur).files s.content k) := by
+  have hstep : step cfg s (.jstep j) = some (jSwap s j) := by simp [step, jstep, hj, hpc]
+  have h1 := current_shows_flushed_tokens hm hr hcl (Reachable.step _ h hstep) k
+  have h2 := current_shows_flushed_tokens hm hr hcl h k
+  have hfl : (jSwap s j).flushed = s.flushed := by simp [jSwap, noteFlush, hk, swapVersion, setPc, St.setJob]
+  have hc : (jSwap s j).content = s.content := rfl
+  rw [hfl, hc] at h1
+  exact h1.trans h2.symm
+
+/-- the contract is satisfiable (a merger that concatenates the inputs' tokens per key) -/
+theorem merger_contract_satisfiable : MergerOk collectMerge := collectMerge_ok
+
+/-- the model variant of the current source with an arbitrary merger -/
+def codeCfgWith (merge : List Content → Content) (threshold : Nat) (rollupOn : Bool) : Cfg :=
+  { codeCfg threshold rollupOn with merge := merge }
+
+/-- UNCONDITIONAL for the current source, any contract-abiding merger: what the current version
+shows for a key is exactly what the completed flush commits wrote -/
+theorem current_source_shows_flushed_tokens {merge : List Content → Content} (hm : MergerOk merge)
+    {t : Nat} {ro : Bool} {v0 f0 : Nat} {s : St} (h : Reachable (codeCfgWith merge t ro) v0 f0 s) (k : Nat) :
+    (vTokens (s.ver s.cur).files s.content k).Perm (s.flushed.flatMap (fun f => tokensAt (s.content f) k)) :=
+  current_shows_flushed_tokens (cfg := codeCfgWith merge t ro) hm source_rechecks source_clone_locked h k
+
+/-- the table numbers of a version are pairwise distinct; at most one compaction runs at a time -/
+theorem version_tables_distinct {cfg : Cfg} {v0 f0 : Nat} {s : St} (hm : MergerOk cfg.merge)
+    (hr : cfg.recheck = true) (hcl : cfg.cloneLocked = true) (h : Reachable cfg v0 f0 s) (v : Nat) :
+    (s.ver v).nos.Nodup :=
+  (tok_reachable hm hr hcl h).nodup v
 
 /-! ### reader-cache cleanup as a nondeterministic step (LRU order / TTL not modelled) -/
 
